@@ -48,3 +48,21 @@ class Exploding(persistent.Persistent):
     def _p_resolveConflict(self, old, committed, new):
         RESOLVE_LOG.append(('exploding',))
         raise RuntimeError('boom')
+
+
+class RCounter(persistent.Persistent):
+    """resolvable; the recording merge takes 'n' three-way, keys starting with 'c_' from the committed
+    state and everything else from the new state - so references of both sides end up in the result"""
+
+    def _p_resolveConflict(self, old, committed, new):
+        RESOLVE_LOG.append((old, committed, new))
+        r = dict(new)
+        r['n'] = committed.get('n', 0) + new.get('n', 0) - old.get('n', 0)
+        for k, v in committed.items():
+            if k.startswith('c_'):
+                r[k] = v
+        return r
+
+
+class NoResolver(persistent.Persistent):
+    pass
